@@ -1,6 +1,6 @@
 (* TimeSpec.v - what the true times are, independently of the handler's algorithm:
    constellation week starts, timestamp encodings, observation histories. *)
-From NTRIP Require Import Base Bits Crc Time.
+From NTRIP Require Import Base Bits Crc Time FrameSpec.
 Open Scope Z_scope.
 
 Definition three_days : Z := 3 * 86400000000000.
@@ -42,12 +42,6 @@ Definition msm_type (c : constellation) (k7 : bool) : N :=
   end%N.
 
 (* a minimal CRC-valid MSM frame that carries the given timestamp *)
-Definition frame_of_payload (p : list N) : list N :=
-  let n := N.of_nat (length p) in
-  let head := 211%N :: (n / 256)%N :: (n mod 256)%N :: p in
-  let c := crc24q_spec head in
-  head ++ [(c / 65536)%N; ((c / 256) mod 256)%N; (c mod 256)%N].
-
 Definition msm_time_frame (c : constellation) (k7 : bool) (station ts : N) : list N :=
   frame_of_payload (bytes_of_bits (put_u 12 (msm_type c k7) ++ put_u 12 station ++ put_u 30 ts ++ [false; false])).
 
